@@ -39,9 +39,10 @@ theorem iter_no_delivery_after_completed (s : IW.Script) (σ : List Nat) (u : Na
     IW.outPos ((IW.run s σ c).th u) = IW.outPos (c.th u) :=
   (IW.quiet_run s σ u c hC hq).2
 
-/-- a single pull or a one-shot chunk pull that meets the end of the wrapped iterator sets `completed` -/
-theorem iter_end_sets_completed (s : IW.Script) (t : Nat) (c : IW.Cfg) (r : IW.Req) (b : Nat)
-    (h : (c.th t).pc = .setC r b) : (IW.step s t c).C = true := by
+/-- every pull (single, one-shot chunk, buffered) that meets a `None` of the wrapped iterator goes through `setC`:
+it sets `completed` before it publishes or returns -- so that the wrapped iterator is never polled again -/
+theorem iter_end_sets_completed (s : IW.Script) (t : Nat) (c : IW.Cfg) (r : IW.Req) (b : Nat) (acc : List Nat)
+    (h : (c.th t).pc = .setC r b acc) : (IW.step s t c).C = true := by
   unfold IW.step; simp only [h]; split <;> simp [IW.setTh]
 
 end Orx.Props.C05
